@@ -94,3 +94,19 @@ impl Z {
     #[verifier::external_body] pub fn inv(&self) -> (r: Option<Z>)
         ensures match r { Some(w) => (self.v() == 1 || self.v() == -1) && w.v() == self.v(), None => !(self.v() == 1 || self.v() == -1) } { unimplemented!() }
 }
+
+// ---- gcd / lcm of integers: ASSUMED contract (num_integer for machine integers and BigInt; the
+// generic EucRing code meeting the same statements is proved in unit euc_ring) ----
+pub open spec fn zcoprime(a: int, b: int) -> bool { exists|s: int, t: int| #[trigger] (s * a) + #[trigger] (t * b) == 1 }
+impl Z {
+    #[verifier::external_body] pub fn gcd(x: &Z, y: &Z) -> (g: Z)
+        ensures g.v() >= 0, zdvd(g.v(), x.v()), zdvd(g.v(), y.v()),
+            exists|s: int, t: int| g.v() == #[trigger] (s * x.v()) + #[trigger] (t * y.v()),
+            (x.v() != 0 || y.v() != 0) ==> g.v() > 0,
+    { unimplemented!() }
+    #[verifier::external_body] pub fn lcm(x: &Z, y: &Z) -> (l: Z)
+        ensures l.v() >= 0, zdvd(x.v(), l.v()), zdvd(y.v(), l.v()), (x.v() != 0 && y.v() != 0) ==> l.v() > 0,
+    { unimplemented!() }
+    #[verifier::external_body] pub fn add_assign<B: ZL>(&mut self, b: B) ensures (*final(self)).v() == (*old(self)).v() + b.v() { unimplemented!() }
+    #[verifier::external_body] pub fn sub_assign<B: ZL>(&mut self, b: B) ensures (*final(self)).v() == (*old(self)).v() - b.v() { unimplemented!() }
+}
